@@ -1,5 +1,6 @@
 import PyaModel.Proofs.C17
 import PyaModel.Generated.FormatCaches
+import PyaModel.Generated.FormatRoutes
 /-!
 # Props/C17 — format-string diagnostics agree with CPython's formatter
 
@@ -286,6 +287,40 @@ theorem format_checker_is_cache_free :
     liveCaches = [] ∧
     liveModuleMutables = ["_FORMAT_STRING_CONVERSIONS", "_NUMERIC_CONVERSION_TYPES"] ∧
     liveSelfStores = ["_ParserState.next:self.current_index"] := by decide
+
+/-- **Route independence (model).** The verdict for (template, operand) does not depend on the
+syntactic route by which the `%` operation reaches the checker (`T % A`, `t %= A`, a constant or
+`Final` name, a `Literal`-typed parameter, concatenated literals, nesting …). True by construction;
+the `route` correspondence stream compares the *implementation's* verdict for the same
+(template, operand) through every registered route with this single verdict and with CPython
+executing the same statement. -/
+theorem verdict_route_independent (r r' : Route) (o : Occ) : pyaOccR r o = pyaOccR r' o := rfl
+
+/-- The same for `str.format` (`T.format(…)`, `str.format(T, …)`, `*xs`/`**d` …). -/
+theorem format_verdict_route_independent (r r' : FRoute) (t : List Char) (nargs : Nat)
+    (kws : List (List Char)) : pyaFormatR r t nargs kws = pyaFormatR r' t nargs kws := rfl
+
+/-- **Obligation over the live source** (`Generated/FormatRoutes.lean`, regenerated on every run by
+an AST scan of name_check_visitor.py / implementation.py / format_strings.py): the call sites of
+`check_string_format`, `parse_format_string`, `PercentFormatString.from_*pattern`, the callers of
+`_visit_binop_internal` and the registration of `_str_format_impl` are exactly the registered
+ones — each has a generator in the `route` stream — and `check_string_format` is reached under
+exactly the registered guard. A new, removed or re-guarded route breaks this obligation and
+triggers the widened search. -/
+theorem format_entry_routes_registered :
+    liveRoutes =
+      ["_str_format_impl<-impl@str.format",
+       "_visit_binop_internal<-name_check_visitor:NameCheckVisitor._visit_single_compare",
+       "_visit_binop_internal<-name_check_visitor:NameCheckVisitor._visit_single_compare",
+       "_visit_binop_internal<-name_check_visitor:NameCheckVisitor.visit_AugAssign",
+       "_visit_binop_internal<-name_check_visitor:NameCheckVisitor.visit_BinOp",
+       "check_string_format<-name_check_visitor:NameCheckVisitor._visit_binop_internal",
+       "from_bytes_pattern<-format_strings:check_string_format",
+       "from_pattern<-format_strings:check_string_format",
+       "parse_format_string<-implementation:_str_format_impl"] ∧
+    liveRouteGuards =
+      ["name_check_visitor:NameCheckVisitor._visit_binop_internal: isinstance(op, ast.Mod) and isinstance(left, KnownValue) and isinstance(left.val, (bytes, str))"] := by
+  decide
 
 /-- Regression for the seeded change C17-2: `'%(name)s' % {'name': 1, 'size': 2}` followed by
 `'%(name)s' % {'name': 1}` — both silent, in either order, and as a union. -/
